@@ -415,7 +415,35 @@ class _Writer(object):
 
 
 class SimFS(object):
+    # Writers that arrive on a thread other than the caller's are scheduled adversarially: a writer is parked until a
+    # later one has arrived and been let through first (or a short real-time bound expires).  sheXer itself has no
+    # threads, so on the shipped code this never runs and costs nothing; it exists so that a change which hands chunks
+    # of the output to concurrent writers meets the interleaving a slow disk would produce.
+    PARK_S = 0.05
+    YIELD_S = 0.03
+
+    def _park_foreign_thread(self):
+        import threading
+        if threading.current_thread() is threading.main_thread():
+            return
+        import time as _time
+        with self._cv:
+            ticket = self._arrivals
+            self._arrivals += 1
+            self.sim.probes["writer_threads_parked"] += 1
+            self._cv.notify_all()
+            end = _time.monotonic() + self.PARK_S
+            while self._arrivals == ticket + 1:
+                left = end - _time.monotonic()
+                if left <= 0:
+                    return
+                self._cv.wait(left)
+        _time.sleep(self.YIELD_S)      # a newer writer arrived: let it go first
+
     def __init__(self, sim):
+        import threading
+        self._cv = threading.Condition()
+        self._arrivals = 0
         self.sim = sim
         self.read_fault_left = -1      # n >= 0: fail when n more lines have been delivered
         self.write_fault_left = -1
@@ -432,6 +460,7 @@ class SimFS(object):
 
     def open_for_write(self, path, mode="r", *a, **k):
         if "w" in mode or "a" in mode:
+            self._park_foreign_thread()
             if self.open_fault is not None:
                 self.open_fault = None
                 self.sim.faults["sink_open_eacces"] += 1
